@@ -56,6 +56,19 @@ class OutPtr:
         self.name = name
 
 
+class ListPtr:
+    """pointer into a temporary array made by new[]: the array and an element offset (one past the end may be held,
+    not dereferenced)"""
+    def __init__(self, lst, off):
+        self.lst, self.off = lst, off
+
+    def elem(self, idx, e):
+        i = self.off + idx
+        if not isinstance(idx, int) or i < 0 or i >= len(self.lst):
+            raise Problem("index %s outside the temporary array of %d elements at line %s" % (i, len(self.lst), e.get("l")))
+        return i
+
+
 def is_junk(label):
     return isinstance(label, tuple) and label and label[0] == "junk"
 
@@ -115,10 +128,8 @@ class Exec:
             return ("var", e["ref"]["id"], e["ref"]["name"])
         if k == "ArraySubscriptExpr":
             base, idx = self.ev(kids(e)[0]), self.ev(kids(e)[1])
-            if isinstance(base, list):
-                if not isinstance(idx, int) or idx < 0 or idx >= len(base):
-                    raise Problem("index %s outside the temporary array of %d elements at line %s" % (idx, len(base), e.get("l")))
-                return ("listelem", base, idx)
+            if isinstance(base, ListPtr):
+                return ("listelem", base.lst, base.elem(idx, e))
             if not isinstance(base, ArrPtr):
                 raise AnalysisBroken("subscript of a non-array at line %s" % e.get("l"))
             i = base.off + idx
@@ -133,6 +144,8 @@ class Exec:
                 return ("field", obj, e["member"])
             if isinstance(obj, dict):
                 return ("dict", obj, e["member"])
+            if isinstance(obj, ListPtr):              # p->member of a pointer into a temporary array
+                return ("dict", obj.lst[obj.elem(0, e)], e["member"])
             if isinstance(obj, tuple) and obj and obj[0] == "result":
                 return ("result", obj, e["member"])
             if obj is None:
@@ -147,6 +160,8 @@ class Exec:
             if isinstance(p, ArrPtr):
                 self.check_index(p.node, p.field, p.off, e)
                 return ("elem", p.node, p.field, p.off)
+            if isinstance(p, ListPtr):
+                return ("listelem", p.lst, p.elem(0, e))
             raise AnalysisBroken("dereference not understood at line %s" % e.get("l"))
         raise AnalysisBroken("lvalue not understood at line %s: %s" % (e.get("l"), dtable.describe(e)))
 
@@ -162,6 +177,10 @@ class Exec:
             if l[1] not in self.env:
                 raise AnalysisBroken("read of an unbound variable %s" % l[2])
             return self.env[l[1]]
+        if l[0] == "envvar":
+            if l[2] not in l[1]:
+                raise AnalysisBroken("read of an unbound variable %s" % l[3])
+            return l[1][l[2]]
         if l[0] == "elem":
             return l[1].arr(l[2])[l[3]]
         if l[0] == "field":
@@ -184,6 +203,8 @@ class Exec:
     def store(self, l, v):
         if l[0] == "var":
             self.env[l[1]] = v
+        elif l[0] == "envvar":
+            l[1][l[2]] = v
         elif l[0] == "elem":
             l[1].arr(l[2])[l[3]] = v
         elif l[0] == "field":
@@ -247,6 +268,12 @@ class Exec:
                     new = ArrPtr(old.node, old.field, old.off + (1 if op == "++" else -1))
                     self.store(l, new)
                     return old if e.get("postfix") else new
+                if isinstance(old, ListPtr):
+                    new = ListPtr(old.lst, old.off + (1 if op == "++" else -1))
+                    self.store(l, new)
+                    return old if e.get("postfix") else new
+                if not isinstance(old, int) or isinstance(old, bool):
+                    raise AnalysisBroken("%s of a non-integer at line %s: %s" % (op, e.get("l"), dtable.describe(e)[:80]))
                 new = old + (1 if op == "++" else -1)
                 new = self.uint(new, e, kids(e)[0].get("ty"))
                 self.store(l, new)
@@ -266,6 +293,8 @@ class Exec:
                         return self.load(p[1])
                     if isinstance(p, OutPtr):
                         return self.out.get(p.name)
+                    if isinstance(p, ListPtr):
+                        return p.lst[p.elem(0, e)]
                     raise AnalysisBroken("dereference not understood at line %s" % e.get("l"))
                 return self.load(self.lv(e), e)
             if op == "&":
@@ -322,7 +351,7 @@ class Exec:
             n = self.ev(kids(e)[0]) if kids(e) else 0
             if not isinstance(n, int) or n < 0 or n > 100000:
                 raise Problem("new[] of %s elements at line %s" % (n, e.get("l")))
-            return [dict(first=None, second=None) for _ in range(n)]
+            return ListPtr([dict(first=None, second=None) for _ in range(n)], 0)
         if k == "CXXDeleteExpr":
             return None
         if "callee" in e:
@@ -343,6 +372,16 @@ class Exec:
             return ArrPtr(b.node, b.field, b.off + a)
         if isinstance(a, ArrPtr) and isinstance(b, ArrPtr) and a.node is b.node and a.field == b.field and op in ("-", "==", "!=", "<", "<=", ">", ">="):
             return self.arith(op, a.off, b.off, e)
+        if isinstance(a, ListPtr) and isinstance(b, int) and not isinstance(b, bool) and op in ("+", "-"):
+            return ListPtr(a.lst, a.off + (b if op == "+" else -b))
+        if isinstance(b, ListPtr) and isinstance(a, int) and not isinstance(a, bool) and op == "+":
+            return ListPtr(b.lst, b.off + a)
+        if isinstance(a, ListPtr) and isinstance(b, ListPtr) and a.lst is b.lst and op in ("-", "==", "!=", "<", "<=", ">", ">="):
+            return self.arith(op, a.off, b.off, e)
+        if isinstance(a, ListPtr) or isinstance(b, ListPtr):
+            if op in ("==", "!=") and (a is None or b is None):
+                return op == "!="
+            raise AnalysisBroken("pointer arithmetic not understood at line %s: %s" % (e.get("l"), dtable.describe(e)[:80]))
         if op in ("==", "!="):
             if isinstance(a, (Node, type(None))) or isinstance(b, (Node, type(None))):
                 r = a is b
@@ -487,19 +526,37 @@ class Exec:
         if self.tu is not None and e.get("member_call") and args and strip_casts(args[0])["k"] == "This" and \
                 name != self.fn.name and self._depth < 4:
             callee = self.tu.by_did.get(e["callee"]["did"])
-            if callee is not None and callee.body is not None and \
-                    not any((p.get("ty") or "").rstrip().endswith("&") and "const" not in (p.get("ty") or "") for p in callee.params):
+            if callee is not None and callee.body is not None and not any((p.get("ty") or "").rstrip().endswith("&&") for p in callee.params):
                 return self._inline(callee, args[1:])
         raise AnalysisBroken("call to %s() at line %s not modelled" % (name, e.get("l")))
 
     _depth = 0
 
+    @staticmethod
+    def _mutable_ref(ty):
+        """T& with T not const-qualified at top level (`const node*&` is a mutable reference to a pointer)"""
+        ty = (ty or "").rstrip()
+        if not ty.endswith("&") or ty.endswith("&&"):
+            return False
+        base = ty[:-1].rstrip()
+        return not (base.endswith("const") or ("*" not in base and base.startswith("const ")))
+
     def _inline(self, callee, actual):
-        vals = [self.ev(a) for a in actual]
+        if len(actual) != len(callee.params) or any(a is None or a["k"] == "DefaultArg" for a in actual):
+            raise AnalysisBroken("call to %s() with default or variadic arguments not modelled" % callee.name)
         saved = self.env
-        self.env = {}
-        for p, v in zip(callee.params, vals):
-            self.env[p["did"]] = v
+        bound, env = {}, {}
+        for p, a in zip(callee.params, actual):
+            if self._mutable_ref(p.get("ty")):
+                l = self.lv(a)                      # the parameter names the caller's object
+                if l[0] == "var":
+                    l = ("envvar", saved, l[1], l[2])
+                bound[p["did"]] = l
+            else:
+                env[p["did"]] = self.ev(a)
+        saved_refs = {d: self.refs.get(d) for d in bound}
+        self.env = env
+        self.refs.update(bound)
         self._depth += 1
         try:
             for st in kids(callee.body):
@@ -510,6 +567,11 @@ class Exec:
         finally:
             self.env = saved
             self._depth -= 1
+            for d, old in saved_refs.items():
+                if old is None:
+                    self.refs.pop(d, None)
+                else:
+                    self.refs[d] = old
         return ret
 
     # ---- statements -------------------------------------------------------------------
